@@ -44,6 +44,16 @@ PROPS = {
         "quick": {"shards": 16, "cases": 1500, "watchdog_s": 1500, "require": {"evaluations": 150000, "unique_columns_checked": 30000, "unique_in:Reduce": 3000, "unique_in:Join:Inner": 2000}},
         "thorough": {"shards": 16, "cases": 15000, "watchdog_s": 14400, "require": {"evaluations": 5000000}},
     },
+    "C08": {
+        "technique": "runtime monitoring: differential execution on SQLite of the original SQL text and of the SQL rendered from the parsed relation (same engine on both sides), comparing column count/order/names, row multisets, ordering and LIMIT containment",
+        "level_text": "Exploration: ~20k generated queries per quick run over generated catalogues and instances (expressions mixing aggregates and scalars, GROUP BY on expressions and aliases, HAVING, DISTINCT, CTEs incl. ones shadowing table names, derived tables, joins ON/USING of all kinds, set operations, ORDER BY/LIMIT/OFFSET, qualified/aliased/quoted names, string literals with quotes and special characters). The engine is strict about unknown double-quoted names (DQS off), so an invalid rendering is rejected rather than silently mis-executed.",
+        "level_note": "Trusted: SQLite + compatibility layer on both sides (dialect quirks cancel), sqlparser, the multiset comparison (numbers rounded to 10 significant digits). SELECT * over USING joins is compared by name; LIMIT without total order by count + containment.",
+        "rule": ("4 queries per catalogue (3 grammar-generated, 1 literal/identifier probe). evaluation = one query executed both ways; "
+                 "distinct non-trivial = distinct queries whose original result is non-empty."),
+        "assumptions": COMMON_ASSUME + ["the original query's meaning is what SQLite computes for it (portable fragment)"],
+        "quick": {"shards": 16, "cases": 1200, "watchdog_s": 1500, "require": {"evaluations": 40000, "order_checked": 5000, "feature:set_operation": 1000, "feature:group_by": 3000, "feature:join_using": 800, "feature:literals_identifiers": 10000}},
+        "thorough": {"shards": 16, "cases": 40000, "watchdog_s": 14400, "require": {"evaluations": 1500000}},
+    },
     "C10": {
         "technique": "runtime monitoring: generated predicates evaluated by an independent three-valued evaluator on member rows; satisfying rows must be members of DataType::filter's result / of the join's output field types",
         "level_text": "Exploration: ~30k predicates (comparisons col/literal and col/col in both orders, int vs float, IN lists, AND/OR/NOT nests, IS NULL, boolean columns and literals, opaque sub-terms) x 8 rows each on struct types with optional columns, literals placed at the boundaries of the column ranges; plus joins of the four kinds whose ON clause is such a predicate, observed through the join schema. A satisfying row outside the narrowed type is reported with the witness.",
